@@ -243,6 +243,7 @@ fn main() {
             let text = std::fs::read_to_string(&args[2]).expect("read replay file");
             let file: driver::ReplayFile = serde_json::from_str(&text).expect("parse replay file");
             sched::VERBOSE_PANICS.store(true, Ordering::Relaxed);
+            if std::env::var("RMV_TRACE").is_ok() { sched::TRACE_OPS.store(true, Ordering::Relaxed); }
             let rep = replay(&file);
             match rep {
                 Ok(rep) => {
